@@ -9,6 +9,7 @@ def install_all(reg):
     aspmodel.install(reg)
     from . import space_utils, deps, succession_diagram, algorithms, petri_net, trappist
     space_utils.install(reg)
+    space_utils.install_drivers(reg)
     deps.install(reg)
     petri_net.install(reg)
     petri_net.install_names(reg)
@@ -44,6 +45,7 @@ def install_all(reg):
     algorithms.install_dfs(reg)
     algorithms.install_minimal(reg)
     algorithms.install_wrappers(reg)
+    algorithms.install_reports(reg)
 
     _extra_tags(reg)
 
